@@ -145,8 +145,10 @@ def evalStep (op : String) (ins : List Val) (p : Json) : StepRes := do
     else liftE (tensordotA a b axes mode) (fun x => [.arr x])
   | "matmul", [va, vb] =>
     let a ← asArr va; let b ← asArr vb
-    if a.fermi then liftE (a.matmulF b) (fun x => [.arr x])
-    else liftE (matmulA a b) (fun x => [.arr x])
+    -- a rank-0 result is returned as a scalar (pending sign applied, 0 when no blocks align)
+    let wrap (x : Arr GRat) : List Val := if x.ndim == 0 then [.scalar (x.elem [] [])] else [.arr x]
+    if a.fermi then liftE (a.matmulF b) wrap
+    else liftE (matmulA a b) wrap
   | "trace", [v] =>
     let a ← asArr v
     if a.fermi then liftE a.traceF (fun x => [.scalar x])
